@@ -169,8 +169,40 @@ def falsify_C10(ctx):
         r = real([f"na wj {y} wj {x} {s} {d}", f"na wj {x + y} {s} {d}"])
         if r[0] != r[1]:
             cex.append({"kind": "jitter_not_additive", "op": f"na wj {y} wj {x} {s} {d}", "impl": r})
+    # models RECORDED from a periodic / sporadic source (ArrivalCurvePrefix / Curve ::from_arrival_bound*,
+    # the From conversions): the sequences admissible for the source are the ones they document, so they
+    # must not undercount them either (sub-additive sources only: finding F8 concerns the others)
+    m2 = 150 if ctx["tier"] == "quick" else 4000
+    for i in range(m2):
+        T = gen.small(rng, 2, 30)
+        J = wchoice(rng, [(3, 0), (2, rng.randint(0, T - 1)), (1, rng.randint(T, 2 * T - 1))])
+        src = ("spo", T, J) if (J or rng.random() < 0.5) else ("per", T)
+        ssrc = gen.arr_str(src)
+        kind = wchoice(rng, [(3, "p_abu"), (3, "c_abu"), (2, "c_ab")])
+        if kind == "c_ab":
+            par = rng.randint(4, 9)
+        else:
+            # horizons at, just before and just after the points where the source steps
+            k = rng.randint(1, 4)
+            par = max(2 * T + 2, k * T + 1 - (J % T) + wchoice(rng, [(3, 0), (1, -1), (1, 1), (1, rng.randint(2, T))]))
+        s = f"{kind} {par} {ssrc}"
+        tbl = parse_list(real([f"nas {s} 0 {maxd}"])[0])
+        cases += 1
+        dist["recorded_from_source"] = dist.get("recorded_from_source", 0) + 1
+        if tbl is None:
+            continue
+        for rep in range(2):
+            rels = gen_history(src, rng.randint(4, 14), rng)
+            best = count_windows(rels, maxd)
+            nontrivial.add((s, tuple(rels)))
+            bad = [d for d in range(maxd + 1) if best[d] > tbl[d]]
+            if bad:
+                cex.append({"kind": "undercount", "op": f"na {s} {bad[0]}", "impl": tbl[bad[0]],
+                            "events_in_some_window": best[bad[0]], "history": rels,
+                            "note": "history admissible for the source the model was recorded from"})
+                break
     return {"cases": cases, "nontrivial": len(nontrivial),
-            "rule": "random nested arrival models (depth <= 2) x dense/adversarial admissible histories (greedy densest sequences for curves and prefixes, critical-instant and random jitter for sporadic/propagated, unions for aggregates) x all windows starting at an event x all lengths <= 120, compared with the real number_arrivals; N(0)=0 and monotonicity on the real tables; sporadic attainment and sub-additivity; jitter composition. non-trivial = distinct (model, history)",
+            "rule": "random nested arrival models (depth <= 2) x dense/adversarial admissible histories (greedy densest sequences for curves and prefixes, critical-instant and random jitter for sporadic/propagated, unions for aggregates) x all windows starting at an event x all lengths <= 120, compared with the real number_arrivals; N(0)=0 and monotonicity on the real tables; sporadic attainment and sub-additivity; jitter composition; prefixes and curves recorded from periodic / sporadic sources (horizons at and around the source's steps) against histories of the source. non-trivial = distinct (model, history)",
             "counterexamples": cex, "samples": samples, "distribution": dist}
 
 
